@@ -343,3 +343,11 @@ func Recover(f func()) (panicked bool, msg string) {
 	f()
 	return
 }
+
+// RepoDir is the istio tree the harness is built against (/repo unless VERIF_REPO is set).
+func RepoDir() string {
+	if d := os.Getenv("VERIF_REPO"); d != "" {
+		return d
+	}
+	return "/repo"
+}
